@@ -236,7 +236,7 @@ proof fn lemma_bound_out(block: &Block, t: int, n: int, o: OutPoint)
 // R21 `m.entry(k).or_insert(d)` => vp_entry_or_insert(&mut m, k, d); R25 `for (k, v) in MAP {` (by value) => `loop { let (k, v) = match
 // MAP.pop_first() { Some(kv) => kv, None => break }; ..` and `.entry(k).and_modify(|t| A).or_insert(v)` => `match m.get_mut(&k) { Some(t)
 // => { A; } None => { m.insert(k, v); } }`; R3 `bitcoin::Script::from_bytes` / `Iterator::sum` / fee_rate_per_vbyte => stand-ins
-//@extract file=canister/src/unstable_blocks/outpoints_cache.rs item="fn insert_outpoints" props=C20,C15
+//@extract file=canister/src/unstable_blocks/outpoints_cache.rs item="fn insert_outpoints" props=C20,C15,C01,C05
 //@ ret r
 //@ rewrite R26 "for (\w+) in (block\.txdata\(\)|tx\.input\(\)) \{" => "for \1 in \2.iter() {"
 //@ rewrite R9 "let mut removed_outpoints = BTreeMap::new\(\);" => "let mut removed_outpoints: BTreeMap<Address, Vec<OutPoint>> = BTreeMap::new();"
